@@ -194,6 +194,33 @@ func cyclePrograms(r *rng.R, k int) []cycleCase {
 			}
 			add(oneFile(ds...), fmt.Sprintf("typedef cycle len %d with a value cast to it (%d)", n, variant), "")
 		}
+		// the cycle with a TAIL of 1..3 typedefs leading into it, plain or with a value cast to the outermost
+		// one: whoever looks for the end of the chain starts outside the cycle and never comes back to
+		// where it started
+		for variant := 0; variant < 3; variant++ {
+			var ds []*Def
+			for i := 0; i < n; i++ {
+				ds = append(ds, &Def{Kind: 'T', Name: name("T", i), Ty: tref(name("T", i+1))})
+			}
+			tail := 1 + r.Intn(3)
+			prev := name("T", r.Intn(n))
+			for j := 1; j <= tail; j++ {
+				nm := fmt.Sprintf("Tail%d", j)
+				ds = append(ds, &Def{Kind: 'T', Name: nm, Ty: tref(prev)})
+				prev = nm
+			}
+			switch variant {
+			case 1:
+				ds = append(ds, &Def{Kind: 'C', Name: "c", Ty: tref(prev), Val: &CV{Kind: 'i', I: 1}})
+			case 2:
+				ds = append(ds, &Def{Kind: 'S', SKind: 's', Name: "Holder", Fields: []*Field{{ID: i64p(1), Name: "f", Req: 'o', Ty: tref(prev), Dflt: &CV{Kind: 's', S: "x"}}}})
+			}
+			for i := len(ds) - 1; i > 0; i-- { // any source order
+				j := r.Intn(i + 1)
+				ds[i], ds[j] = ds[j], ds[i]
+			}
+			add(oneFile(ds...), fmt.Sprintf("typedef cycle len %d with a tail of %d typedefs leading into it (%d)", n, tail, variant), "")
+		}
 		// typedef -> … -> struct -> typedef: legal recursion through a struct. One order of
 		// linking leaves a nil root (D10, a C07 finding); for C08 only termination matters.
 		defs = nil
@@ -616,5 +643,5 @@ func runC08(c *checker, r *rng.R) {
 		c08Case(c, p, false, "arbitrary bytes", "")
 	}
 	c.flush()
-	c.rep.Rule = "file sets run through compile.Compile + gen.Generate in a child process (20 s timeout, GOMEMLIMIT 1 GiB, ulimit -v 6 GiB, 64 MiB goroutine stack): structurally generated programs with every kind of reference cycle of length 1..k (typedef→typedef also through containers, typedef→struct→typedef, struct→struct, const→const with anonymous / named types and through literals, const↔struct default, service extends, include loop / self include, the include loop carrying a service / constant / typedef cycle across files, typedef cycles with a literal of any kind cast to them, mutually nested struct defaults with a mistyped literal; every one of these also as an included file entered from the includer through a constant / field default / typedef / service, so that the cycle is not entered at a type first), acyclic typedefs referred to twice per level (depth 6 / 12 / 24: 2^depth paths), deep acyclic chains (400 levels), invalid references and includes; random valid programs; every go.* annotation with degenerate values (none, empty, underscores, lower case, digits, spaces, quotes, Go keywords) on every annotatable position; token-level mutations of valid IDL; arbitrary bytes. Outcome ∈ {ok, err, diverges (compile crash/timeout), gen-diverges} compared with the model's verdict (the AST of text inputs comes from the real parser); oracle: no crash/timeout. Non-trivial = structured, or accepted by the parser; distinct by input. The shapes of the repaired findings D4 D5 D6 D40 D74 (constant cycles, service cycles, self-referential defaults, constants cast while their types are being linked) are part of the cycle stream and must end in an error."
+	c.rep.Rule = "file sets run through compile.Compile + gen.Generate in a child process (20 s timeout, GOMEMLIMIT 1 GiB, ulimit -v 6 GiB, 64 MiB goroutine stack): structurally generated programs with every kind of reference cycle of length 1..k (typedef→typedef also through containers, typedef→struct→typedef, struct→struct, const→const with anonymous / named types and through literals, const↔struct default, service extends, include loop / self include, the include loop carrying a service / constant / typedef cycle across files, typedef cycles with a literal of any kind cast to them, typedef cycles with a tail of typedefs leading into them, mutually nested struct defaults with a mistyped literal; every one of these also as an included file entered from the includer through a constant / field default / typedef / service, so that the cycle is not entered at a type first), acyclic typedefs referred to twice per level (depth 6 / 12 / 24: 2^depth paths), deep acyclic chains (400 levels), invalid references and includes; random valid programs; every go.* annotation with degenerate values (none, empty, underscores, lower case, digits, spaces, quotes, Go keywords) on every annotatable position; token-level mutations of valid IDL; arbitrary bytes. Outcome ∈ {ok, err, diverges (compile crash/timeout), gen-diverges} compared with the model's verdict (the AST of text inputs comes from the real parser); oracle: no crash/timeout. Non-trivial = structured, or accepted by the parser; distinct by input. The shapes of the repaired findings D4 D5 D6 D40 D74 (constant cycles, service cycles, self-referential defaults, constants cast while their types are being linked) are part of the cycle stream and must end in an error."
 }
